@@ -9,6 +9,7 @@ import itertools
 import numpy as np
 
 from ..core import Acc
+from .. import envctl as E
 from .. import oracle as O
 from .. import meas as M
 from .. import structs as S
@@ -58,6 +59,9 @@ STRUCTS4 = [
     (('A', 'D'), ('C', 'D'), ('B', 'C')),          # the middle clique sorts after both neighbours
     (('A', 'D'), ('B', 'D'), ('C', 'D'), ('A',)),
 ]
+
+
+USE_ITERS = 10
 
 
 def all_structs():
@@ -155,6 +159,29 @@ def run_one(si, total, engine, iters, zero, kind, seed, opt=None):
     fails = coherence_failures(model, attrs, sizes)
     if total is not None and model.total != total:
         fails.append(('total', 'model.total %r != supplied %r' % (model.total, total)))
+    if not fails and iters == USE_ITERS:
+        # the returned model stays one coherent distribution while it is USED: every read-only entry point is called
+        # (records generated under the C11 environment, bulk and single answers, the full vector), then the clauses are re-evaluated
+        from .c11 import SynthEnv
+        pots_snap = {cl: np.array(model.potentials[cl].values, copy=True) for cl in model.cliques}
+        def synth(method, rows):
+            with E.installed(SynthEnv(E.Controller([]))):
+                model.synthetic_data(rows=rows, method=method)
+        uses = [('synthetic_data(rows=37, method=round)', lambda: synth('round', 37)),
+                ('synthetic_data(method=sample)', lambda: synth('sample', None)),
+                ('datavector()', lambda: model.datavector()),
+                ('project(each clique, both orders)', lambda: [model.project(t) for cl in model.cliques for t in (cl, tuple(reversed(cl)))]),
+                ('calculate_many_marginals(all tuples <= 2)', lambda: model.calculate_many_marginals([t for t in S.ordered_subtuples(attrs, maxlen=2)]))]
+        # the clauses are re-evaluated after EACH use (a later call may recompute, and so repair, the stored marginals)
+        for name, fn in uses:
+            with M.quiet():
+                fn()
+            for cl in model.cliques:
+                if not np.array_equal(np.asarray(model.potentials[cl].values), pots_snap[cl], equal_nan=True):
+                    fails.append(('parameters-changed-by-use', 'stored parameters of %r changed by %s' % (cl, name)))
+            fails.extend((k + '-after-use', 'after %s: %s' % (name, m)) for k, m in coherence_failures(model, attrs, sizes))
+            if fails:
+                break
     return struct, fails
 
 
